@@ -29,7 +29,7 @@ LEVEL = META['level']
 RULE = ('a case = one (stream, chunking) parsed, or one (stream, truncation offset, chunking) delivered to the server; chunkings/offsets enumerated as described; distinct by the tuple; '
         'non-trivial = the stream has >= 2 frames or the cut falls inside a frame')
 ASSUMPTIONS = ['the server is given 3 s to close a connection after EOF (wall-clock only guards; exceeding it is inconclusive, not a violation)']
-REQUIRED = ['monitor:served-while-frame-pending', 'parser:truncated-then-eof', 'trunc:long-stream', 'parser:source-rememberable', 'parser:source-chainable', 'parser:streams', 'parser:two-way-splits', 'parser:bytewise', 'parser:k-way', 'parser:frame-spanning-recv-blocks', 'parser:zero-length-payload',
+REQUIRED = ['client:lockstep-streams', 'client:header-only-replies', 'monitor:served-while-frame-pending', 'parser:truncated-then-eof', 'trunc:long-stream', 'parser:source-rememberable', 'parser:source-chainable', 'parser:streams', 'parser:two-way-splits', 'parser:bytewise', 'parser:k-way', 'parser:frame-spanning-recv-blocks', 'parser:zero-length-payload',
             'client:streams', 'client:responses', 'client:nop-frames', 'trunc:trials', 'trunc:inside-header', 'trunc:inside-payload', 'trunc:on-frame-boundary', 'trunc:inside-write-frame',
             'trunc:register-frame', 'monitor:state-equals-complete-frames-only', 'monitor:second-session-alive', 'monitor:fresh-session', 'monitor:connection-table-baseline',
             'monitor:reply-count']
@@ -224,6 +224,11 @@ def client_level(ctx, rng, rounds):
             if r < 0.25:
                 frames.append(rc.enc_frame(0x65, struct.pack('<HH', 1, 0), session=sess, context=c))
                 wants.append((0x65, c, None))
+            elif r < 0.33:
+                # a refusal: a reply header with a non-zero status and no payload at all
+                frames.append(rc.enc_frame(0x6F, b'', session=sess, status=rng.choice([0x01, 0x08, 0x64]), context=c))
+                wants.append((0x6F, c, None))
+                ctx.count('client:header-only-replies')
             elif r < 0.5:
                 # NOP (command 0x0000, the keep-alive either end may send): a frame whose first byte is zero
                 frames.append(rc.enc_frame(0x0000, b'', session=sess, context=c))
@@ -236,8 +241,20 @@ def client_level(ctx, rng, rounds):
                 frames.append(rc.rr_frame(cip, sess, c))
                 wants.append((0x6F, c, vals))
         stream = b''.join(frames)
-        mode = rng.choice(['bytewise', 'two-way', 'k-way', 'whole', 'whole', 'frame-pairs'])
-        if mode == 'frame-pairs':
+        mode = rng.choice(['bytewise', 'two-way', 'k-way', 'whole', 'whole', 'frame-pairs', 'lockstep', 'lockstep'])
+        delivered = [threading.Event() for _ in frames]
+        held = []
+        per_frame = None
+        if mode == 'lockstep':
+            # the peer stays quiet after each frame until the client has delivered it: a complete frame is available as a message
+            # without anything that follows (the next frame's bytes, or the end of the stream)
+            per_frame = []
+            for f in frames:
+                cuts = sorted(set(rng.randrange(1, len(f)) for _ in range(rng.choice([0, 0, 1, 2])))) if len(f) > 1 else []
+                per_frame.append([f[a:b] for a, b in zip([0] + cuts, cuts + [len(f)])])
+            chunks = [c for pf in per_frame for c in pf]
+            ctx.count('client:lockstep-streams')
+        elif mode == 'frame-pairs':
             # receive boundaries on frame boundaries, two frames coalesced per chunk
             chunks = [b''.join(frames[i:i + 2]) for i in range(0, len(frames), 2)]
         elif mode == 'bytewise':
@@ -258,6 +275,14 @@ def client_level(ctx, rng, rounds):
             conn, _ = lst.accept()
             conn.setsockopt(socket.IPPROTO_TCP, socket.TCP_NODELAY, 1)
             try:
+                if per_frame is not None:
+                    for k, pf in enumerate(per_frame):
+                        for c in pf:
+                            conn.sendall(c)
+                            time.sleep(0.002)
+                        if not delivered[k].wait(10):       # a watchdog for "never"; the verdict is causal (see below)
+                            held.append(k)
+                    return
                 for i, c in enumerate(chunks):
                     conn.sendall(c)
                     if len(chunks) < 40 or i % 16 == 0:
@@ -274,11 +299,15 @@ def client_level(ctx, rng, rounds):
             t0 = time.monotonic()
             with cli:
                 # the documented way to receive: await_response waits for readability before re-entering the framer
-                while time.monotonic() - t0 < 10:
+                while time.monotonic() - t0 < (10 if per_frame is None else 20 + 12 * len(frames)):
                     rsp, ela = client.await_response(cli, timeout=5)
+                    if rsp is None and per_frame is not None and len(got) < len(frames):
+                        continue        # nothing yet: the quiet peer is waiting for us
                     if not rsp:         # {} = EOF between frames, None = timeout
                         break
                     got.append(rsp)
+                    if len(got) <= len(delivered):
+                        delivered[len(got) - 1].set()
             cli.close()
         except Exception as exc:
             ctx.violation('client-framing-raises', 'client receive loop (%s) raised %r after %d responses' % (mode, exc, len(got)), wit)
@@ -289,6 +318,10 @@ def client_level(ctx, rng, rounds):
         ctx.count('client:streams')
         ctx.count('client:responses', len(got))
         ctx.case(('client', stream[:100], tuple(len(c) for c in chunks)))
+        if held and len(got) == len(wants):
+            ctx.violation('client-holds-complete-frame-until-more-input', 'frame(s) %r of %d, wholly received, were not delivered while the peer stayed quiet (10 s watchdog); '
+                          'they were delivered once the next frame or the end of the stream arrived' % (held, len(frames)), dict(wit, held=held))
+            continue
         if len(got) != len(wants):
             ctx.violation('client-frame-count-differs', 'client yielded %d responses for %d frames (%s)' % (len(got), len(wants), mode), wit)
             continue
